@@ -9,7 +9,7 @@ import time
 
 from .common import SPEC, scratch
 
-MODULES = ["IdxProofs", "HelpersProofs"]
+MODULES = ["IdxProofs", "HelpersProofs", "DWT1Proofs", "SWTProofs", "DTCWT1Proofs"]
 
 
 def prove(module="IdxProofs", stretch=1, timeout=1500, mutate=None):
@@ -24,9 +24,10 @@ def prove(module="IdxProofs", stretch=1, timeout=1500, mutate=None):
         os.makedirs(spec, exist_ok=True)
         for f in glob.glob(os.path.join(SPEC, "*.tla")):
             shutil.copy(f, spec)
-        src = open(os.path.join(spec, "Idx.tla")).read()
+        target = mutate[2] if len(mutate) > 2 else "Idx.tla"
+        src = open(os.path.join(spec, target)).read()
         assert mutate[0] in src
-        open(os.path.join(spec, "Idx.tla"), "w").write(src.replace(mutate[0], mutate[1]))
+        open(os.path.join(spec, target), "w").write(src.replace(mutate[0], mutate[1]))
     cmd = ["tlapm", "--cleanfp", "--cache-dir", cache, "-I", spec, "--stretch", str(stretch),
            os.path.join(spec, module + ".tla")]
     t0 = time.time()
@@ -46,6 +47,9 @@ def prove(module="IdxProofs", stretch=1, timeout=1500, mutate=None):
                 tail=" | ".join(lines[:6])[:600])
 
 
+THEOREMS_D = ["PadAmounts", "AnalysisLenAll", "AnalysisSrcAll", "SynthesisAll", "ModEqZero", "Half"]
+THEOREMS_S = ["SwtPads", "SwtFullResolution", "SwtSrcAll", "ModAdd", "SwtShiftEquivariant"]
+THEOREMS_T = ["ColdCountAll", "ColdPosAll", "ColdSrcAll"]
 THEOREMS_H = ["PadMatchesPywtAll", "PadInRangeAll", "RollPlainIsIdx", "RollPlainIsCyclic", "ModeCodesRoundTrip", "PrepContractHolds"]
 THEOREMS = ["SrcExtRange", "SrcExtInterior", "HelperSymmIsSymmetric", "HelperWrapIsPeriodic", "HelperTorchReflectIsReflect",
             "RollIsCyclic", "PeriodicPeriod", "SymmetricPeriod", "SymmetricMirror", "ReflectMirror", "CoeffLenFacts"]
@@ -56,7 +60,8 @@ def attach(rep, module="IdxProofs"):
     r = prove(module)
     if not r["ok"]:
         r = prove(module, stretch=4)
-    th = THEOREMS if module == "IdxProofs" else THEOREMS_H
+    th = {"IdxProofs": THEOREMS, "HelpersProofs": THEOREMS_H, "DWT1Proofs": THEOREMS_D, "SWTProofs": THEOREMS_S,
+          "DTCWT1Proofs": THEOREMS_T}[module]
     rep.extra.setdefault("tlaps", []).append(dict(r, theorems=th))
     if r["ok"]:
         rep.count("tlaps_obligations_proved", r["proved"])
